@@ -301,14 +301,14 @@ class Repo:
 
 # ---------------------------------------------------------------------------- small ast helpers
 def walk_no_nested(node):
-    """walk a function body without descending into nested function/class definitions"""
-    stack = list(ast.iter_child_nodes(node))
+    """walk a function body in source (pre-)order without descending into nested function/class definitions"""
+    stack = list(ast.iter_child_nodes(node))[::-1]
     while stack:
         n = stack.pop()
         yield n
         if isinstance(n, (ast.FunctionDef, ast.AsyncFunctionDef, ast.ClassDef, ast.Lambda)):
             continue
-        stack.extend(ast.iter_child_nodes(n))
+        stack.extend(list(ast.iter_child_nodes(n))[::-1])
 
 
 def calls_in(node):
